@@ -331,6 +331,7 @@ func installUniverse() {
 	mk("forall", []types.Type{anyT}, boolT, false)
 	mk("exists", []types.Type{anyT}, boolT, false)
 	mk("fresh", []types.Type{anyT}, boolT, false)
+	mk("loopfresh", []types.Type{anyT}, boolT, false) // allocated since the innermost enclosing loop was entered
 	mk("sameSlice", []types.Type{anyT, anyT}, boolT, false)
 	mk("unchanged", []types.Type{anyT}, boolT, false)
 	mk("be16", []types.Type{anyT, intT}, types.Typ[types.Uint16], false)
